@@ -16,7 +16,8 @@ PROP_FILE = 'Props/C11.v'
 THEOREMS = ['C11_parse_only_valueerror', 'C11_accessors_total', 'C11_parse_or_log_never_raises',
             'C11_urljoin_only_valueerror', 'C11_urljoin_safe_never_raises', 'C11_default_ports_are_the_sources']
 TRUSTED = [
-    'hand-written model Model/Url.v + Model/UrlLib.v of wpull/url.py (each partial primitive has its own failure kind; try/except '
+    'harness/translate/consts.py (fail-closed AST evaluator of constant definitions) -> coq/Gen/Consts.v, regenerated every run; Proofs/ConstsAgree.v proves the model\'s constants equal to it for every value',
+        'hand-written model Model/Url.v + Model/UrlLib.v of wpull/url.py (each partial primitive has its own failure kind; try/except '
     'is a match on the kind), tied by the vm_compute correspondence of this run: exception kind or all attributes + every accessor '
     '+ parse_url_or_log, on a hostile stream',
     'oracles of the model (Section variables, arbitrary in the theorems): codecs, str.lower/int()/idna on non-ASCII text, '
